@@ -79,6 +79,8 @@ def run(R):
         check_copy(c, cp, wr)
     with R.clause('D4', 'ESCAPE', floor=6, desc='leftmost escape; prefix delivered; rest not; then return') as c:
         check_escape(c, f, cp)
+    with R.clause('D7', 'TOTAL', floor=1, desc='logging the keyboard input cannot fail on a chunk that ends inside a multi-byte character') as c:
+        check_log_total(c, repo)
     with R.clause('D6', 'TERM', floor=4, desc='the copy loop ends on EIO / empty read / dead child, other errors propagate') as c:
         g = cp.cfg
         loops = [n for n in iter_nodes(cp.node) if isinstance(n, ast.While)]
@@ -246,7 +248,29 @@ def check_escape(c, f, cp):
         c.check(bool(gs_), f, enc[0], 'the conversion is skipped for escape_character=None (no escape handling)', kind='path', tag='latin1-guard')
 
 
+def check_log_total(c, repo):
+    """the keyboard bytes are logged (through _log_control) BEFORE they are written to the child, chunk by chunk; a per-chunk
+    bytes.decode with a strict error policy raises on a chunk that ends inside a character and the keystrokes are lost"""
+    f = repo.func('pty_spawn:spawn.__interact_copy')
+    helpers = set(callee_last(k) for k in calls_in(f.node) if isinstance(k.func, ast.Attribute) and is_name(k.func.value, 'self')
+                  and callee_last(k) in ('_log_control', '_log'))
+    n = 0
+    for h in sorted(helpers):
+        hf = repo.func('pty_spawn:spawn.' + h) if h == '_log_control' else None
+        if hf is None:
+            continue
+        for k in calls_in(hf.node):
+            if callee_last(k) == 'decode' and isinstance(k.func, ast.Attribute) and not (dotted(k.func.value) or '').endswith('_decoder'):
+                n += 1
+                pol = call_arg(k, 'errors', 1)
+                ok = isinstance(pol, ast.Constant) and pol.value in ('replace', 'ignore', 'backslashreplace', 'surrogateescape')
+                c.check(ok, hf, k, 'the per-chunk decode used for logging typed bytes has a total error policy (it is applied to chunks cut at arbitrary '
+                        'byte positions, before the bytes are forwarded to the child)', witness=norm(k), kind='ast', tag='log-decode-total')
+    c.need(n >= 1, '_log_control: decode call not found')
+
+
 MUTANTS = [
+    ('log-control-strict', 'pty_spawn', "            s = s.decode(self.encoding, 'replace')", "            s = s.decode(self.encoding, self.codec_errors)", 'D7'),
     ('restore-not-finally', 'pty_spawn', "        try:\n            self.__interact_copy(escape_character, input_filter, output_filter)\n        finally:\n            tty.tcsetattr(self.STDIN_FILENO, tty.TCSAFLUSH, mode)", "        self.__interact_copy(escape_character, input_filter, output_filter)\n        tty.tcsetattr(self.STDIN_FILENO, tty.TCSAFLUSH, mode)", 'D1'),
     ('save-after-raw', 'pty_spawn', "        mode = tty.tcgetattr(self.STDIN_FILENO)\n        tty.setraw(self.STDIN_FILENO)", "        tty.setraw(self.STDIN_FILENO)\n        mode = tty.tcgetattr(self.STDIN_FILENO)", 'D1'),
     ('flush-trimmed', 'pty_spawn', "        self.write_to_stdout(self._before.getvalue())", "        self.write_to_stdout(self.buffer)", 'D2'),
